@@ -1,6 +1,7 @@
 package roverif
 
 import (
+	"context"
 	"fmt"
 	"sort"
 	"strings"
@@ -112,6 +113,8 @@ func (m *shareModel) step(op OpSpec) []string {
 			m.subj = nil
 		}
 		return nil
+	case "twin":
+		return nil // the other observable built from the same operator value ends: no effect here
 	case "srcN":
 		if !m.live || m.subj == nil {
 			return nil
@@ -243,7 +246,9 @@ func init() {
 			sc.SetInt("rC", g.Intn(2))
 			sc.SetInt("rZ", g.Intn(2))
 			sc.SetInt("rD", g.Intn(2))
-			sc.SetInt("cvar", g.Intn(4)) // which constructor builds the connectable observable
+			sc.SetInt("cvar", g.Intn(6))             // which constructor builds the connectable observable
+			sc.SetInt("twin", g.PickInt(0, 0, 1, 2)) // the operator value has been applied to another source before (1: which completed, 2: failed)
+			sc.SetInt("cwc", g.Intn(2))              // connect with ConnectWithContext: the source is subscribed with that context
 			if clients > 1 {
 				sc.SetInt("clients", g.Range(2, 3))
 			} else {
@@ -251,6 +256,10 @@ func init() {
 			}
 			sc.Sources = []SrcSpec{{Mode: "manual"}}
 			sc.Ops = genShareOps(g, sc.Sub == "connectable", sc.Int("clients", 1))
+			if sc.Int("twin", 0) > 0 && sc.Sub != "connectable" {
+				at := g.Intn(len(sc.Ops) + 1)
+				sc.Ops = append(sc.Ops[:at], append([]OpSpec{{Client: 0, Op: "twin"}}, sc.Ops[at:]...)...)
+			}
 			if sc.Sub == "connectable" && clients == 1 && g.Bool(0.3) {
 				// a cold source that plays [101 102 complete] synchronously inside every Connect
 				sc.SetInt("syncsrc", 1)
@@ -304,20 +313,28 @@ func runC11(e *Env) {
 	connector := func() ro.Subject[int] { return newSubject(kinds[ci], bufs[ci]) }
 	var shared ro.Observable[int]
 	var conn ro.ConnectableObservable[int]
+	var endTwin func()
 	switch sc.Sub {
 	case "share":
 		m.resetErr, m.resetCompl, m.resetZero = sc.Int("rE", 0) == 1, sc.Int("rC", 0) == 1, sc.Int("rZ", 0) == 1
-		shared = ro.ShareWithConfig(ro.ShareConfig[int]{Connector: connector, ResetOnError: m.resetErr, ResetOnComplete: m.resetCompl, ResetOnRefCountZero: m.resetZero})(src.Obs())
+		op := ro.ShareWithConfig(ro.ShareConfig[int]{Connector: connector, ResetOnError: m.resetErr, ResetOnComplete: m.resetCompl, ResetOnRefCountZero: m.resetZero})
+		endTwin = c11Twin(e, sc, op)
+		shared = op(src.Obs())
 	case "sharereplay":
 		m.kind, m.buf = "replay", sc.Int("rbuf", 1)
 		m.resetErr, m.resetCompl, m.resetZero = true, false, sc.Int("rZ", 0) == 1
-		shared = ro.ShareReplayWithConfig[int](m.buf, ro.ShareReplayConfig{ResetOnRefCountZero: m.resetZero})(src.Obs())
+		op := ro.ShareReplayWithConfig[int](m.buf, ro.ShareReplayConfig{ResetOnRefCountZero: m.resetZero})
+		endTwin = c11Twin(e, sc, op)
+		shared = op(src.Obs())
 	default:
 		m.connectable = true
 		m.resetDisc = sc.Int("rD", 0) == 1
 		cfg := ro.ConnectableConfig[int]{Connector: connector, ResetOnDisconnect: m.resetDisc}
 		subscribeFn := func(dest ro.Observer[int]) ro.Teardown {
 			return src.Obs().Subscribe(dest).Unsubscribe
+		}
+		subscribeFnCtx := func(ctx context.Context, dest ro.Observer[int]) ro.Teardown {
+			return src.Obs().SubscribeWithContext(ctx, dest).Unsubscribe
 		}
 		defaults := kinds[ci] == "publish" && m.resetDisc // what the constructors without a config use
 		switch cv := sc.Int("cvar", 0); {
@@ -327,6 +344,10 @@ func runC11(e *Env) {
 			conn = ro.NewConnectableObservable(subscribeFn)
 		case cv == 3:
 			conn = ro.NewConnectableObservableWithConfig(subscribeFn, cfg)
+		case cv == 4 && defaults:
+			conn = ro.NewConnectableObservableWithContext(subscribeFnCtx)
+		case cv == 5:
+			conn = ro.NewConnectableObservableWithConfigAndContext(subscribeFnCtx, cfg)
 		default:
 			conn = ro.ConnectableWithConfig(src.Obs(), cfg)
 		}
@@ -371,6 +392,11 @@ func runC11(e *Env) {
 			if s := subs[op.A]; s != nil {
 				s.Unsubscribe()
 			}
+		case "twin":
+			if endTwin != nil {
+				endTwin()
+				endTwin = nil
+			}
 		case "srcN":
 			src.Push(Step{K: "N", V: op.A})
 		case "srcE":
@@ -389,7 +415,20 @@ func runC11(e *Env) {
 			}
 			inside = nil
 		case "connect":
-			connSub = conn.Connect()
+			if sc.Int("cwc", 0) == 1 {
+				connSub = conn.ConnectWithContext(context.WithValue(context.Background(), c11ConnectKey{}, "connect"))
+				// the constructors that hand the context to the subscribe function / subscribe an observable
+				if cv := sc.Int("cvar", 0); cv != 2 && cv != 3 {
+					for _, ctx := range src.Ctxs {
+						if ctx == nil || ctx.Value(c11ConnectKey{}) != "connect" {
+							e.Violate("C11", "connect-context-lost", fmt.Sprintf("ConnectWithContext(ctx): the source was subscribed with a context that does not carry the values of ctx (constructor variant %d)", cv))
+							break
+						}
+					}
+				}
+			} else {
+				connSub = conn.Connect()
+			}
 			atomic.StoreUint32(&connPub, 1)
 		case "disconnect":
 			if atomic.LoadUint32(&connPub) == 1 && connSub != nil {
@@ -507,5 +546,30 @@ func runC11(e *Env) {
 			}
 			last = v
 		}
+	}
+}
+
+type c11ConnectKey struct{}
+
+// c11Twin applies the operator value to another source first and gives that shared observable a subscriber
+// and a value; the returned function ends its source (the scenario's "twin" operation does, at any point of
+// the judged observable's life) and lets the subscriber leave. An operator value is a recipe: nothing of
+// this may show in the observable built from it afterwards.
+func c11Twin(e *Env, sc *Scn, op func(ro.Observable[int]) ro.Observable[int]) func() {
+	k := sc.Int("twin", 0)
+	if k == 0 {
+		return nil
+	}
+	pre := e.NewSrc(SrcSpec{Mode: "manual"})
+	a := op(pre.Obs())
+	sub := a.Subscribe(ro.NoopObserver[int]())
+	pre.Push(Step{K: "N", V: 1})
+	return func() {
+		if k == 1 {
+			pre.Push(Step{K: "C"})
+		} else {
+			pre.Push(Step{K: "E", V: 3})
+		}
+		sub.Unsubscribe()
 	}
 }
